@@ -14,6 +14,7 @@
                               only if the task is RUNNING (guard regenerated from run_task/handler.py)
    C03_child_never_started_before_parent  a StartStage handling writes a stage of a synthetic child only when the
                               child's parent is not NOT_STARTED in the state it read
+   C03_task_never_started_before_before_stages  StartTask writes a stage only when every before stage of it is complete
    C03_no_execution_in_not_started_stage  whole-run invariant (EngineNS): no task executes in a NOT_STARTED stage, ever
    OPEN: that no OTHER handler moves a NOT_STARTED stage to RUNNING is part of C06_commit_legal's case analysis
          (Signal: from SUSPENDED; suspend-with-buffered-signal: from RUNNING) but is not restated here. *)
@@ -74,6 +75,13 @@ Theorem C03_child_never_started_before_parent : forall s id i k st p ps j st',
   s_status ps <> NOT_STARTED.
 Proof. exact start_stage_child_started_under_started_parent. Qed.
 
+(* ... nor a parent's task ahead of its before stages: StartTask writes a stage only when every before stage of that stage
+   is complete in the state it read (a duplicate StartTask left over from the previous loop iteration is ignored) *)
+Theorem C03_task_never_started_before_before_stages : forall s id i t j st' b,
+  In (j, st') (puts (h_commits (handle_start_task s id i t))) ->
+  In b (kids s i OwnBefore) -> is_complete (status_at s b) = true.
+Proof. exact start_task_after_before_stages. Qed.
+
 (* An invariant of EVERY run (any workflow submitted with all tasks NOT_STARTED; any delivery order, redeliveries, crash
    cuts, sweeps, cancels, signals, pauses, jumps and operator restarts), by induction over the action list: a stage that
    is NOT_STARTED has only NOT_STARTED tasks.  It holds only since StartTask refuses a NOT_STARTED stage (c9af2a4). *)
@@ -114,5 +122,6 @@ Print Assumptions C03_tasks_run_in_running.
 Print Assumptions C03_parent_tasks_after_before_stages.
 Print Assumptions C03_start_stage_before_stages_first.
 Print Assumptions C03_child_never_started_before_parent.
+Print Assumptions C03_task_never_started_before_before_stages.
 Print Assumptions C03_not_started_stage_has_no_started_task.
 Print Assumptions C03_no_execution_in_not_started_stage.
